@@ -1,8 +1,12 @@
 """Value-flow facts that survive refactoring.
 
-`Flow.atoms(expr, fn)` answers: which *leaf* expressions (canonical source
-texts of attribute/subscript chains rooted at parameters or globals, opaque
-calls, constants) can flow into the value of `expr`?  The closure follows
+`Flow.atoms(expr, fn)` answers: which *access paths* can flow into the value
+of `expr`?  An access path is an attribute/subscript chain rooted at a
+parameter (`param:x`, `x.a.b`), a global, or an opaque call
+(`env.tool('rm')(~)`: constant arguments spelled out, others `~`), or a
+constant (`const:'x'`). Element access and iteration are transparent: the
+elements of `x.files` are `x.files`. Locals never appear: `d = o.host;
+d.path` is `o.host.path`. The closure follows
 
   * local definitions (assignment, tuple unpacking with positions, augmented
     assignment, for/comprehension targets, `with ... as`, in-place mutation
@@ -56,6 +60,7 @@ class Flow:
         self.repo = repo
         self.max_depth = max_depth
         self._defs = {}
+        self._memo = {}
 
     # -- definitions of locals -------------------------------------------
     def defs(self, fn_node):
@@ -84,7 +89,7 @@ class Flow:
             elif isinstance(t, ast.Attribute):
                 pass
 
-        for n in ast.walk(fn_node):
+        for n in walk_no_nested(fn_node):
             if isinstance(n, ast.Assign):
                 for t in n.targets:
                     bind_target(t, 'value', n.value)
@@ -153,39 +158,49 @@ class Flow:
 
     # -- atoms ---------------------------------------------------------------
     def atoms(self, e, fn, bind=None, depth=0, _seen=None):
+        """_seen is the stack of expressions under evaluation (cycle guard);
+        results of binding-free evaluations are memoised."""
         _seen = _seen if _seen is not None else set()
-        out = set()
         if e is None:
-            return out
-        key = (id(e), fn.fq if fn else None, depth)
+            return set()
+        key = (id(e), fn.fq if fn else None)
         if key in _seen:
-            return out
+            return set()
+        mkey = None
+        if bind is None:
+            mkey = (id(e), fn.fq if fn else None, depth)
+            if mkey in self._memo and not _seen:
+                return set(self._memo[mkey])
         _seen.add(key)
+        try:
+            out = self._atoms(e, fn, bind, depth, _seen)
+        finally:
+            _seen.discard(key)
+        if mkey is not None and not _seen:
+            self._memo[mkey] = frozenset(out)
+        return out
+
+    def _atoms(self, e, fn, bind, depth, _seen):
+        out = set()
         A = lambda x: self.atoms(x, fn, bind, depth, _seen)  # noqa
 
         if isinstance(e, ast.Constant):
             return {'const:' + repr(e.value)}
         if isinstance(e, ast.Name):
+            c = self._comp_binding(e, fn)
+            if c is not None:
+                it, idx = c
+                return self.iter_atoms(it, idx, fn, bind, depth, _seen)
             return self._name_atoms(e.id, fn, bind, depth, _seen)
-        if isinstance(e, ast.Attribute):
-            out.add(self.canon(e, fn))
-            root = e
-            while isinstance(root, (ast.Attribute, ast.Subscript)):
-                root = root.value
-            if isinstance(root, (ast.Name, ast.Call)):
-                sub = A(root)
-                # keep flows through aliases of whole objects
-                out |= {a for a in sub if not a.startswith('const:')}
-            return out
-        if isinstance(e, ast.Subscript):
-            out.add(self.canon(e, fn))
-            if isinstance(e.slice, ast.Constant) and isinstance(
-                    e.slice.value, int):
-                out |= self.elem_atoms(e.value, e.slice.value, fn, bind,
-                                       depth, _seen)
-            else:
-                out |= A(e.value)
-            return out
+        if isinstance(e, (ast.Attribute, ast.Subscript)):
+            if isinstance(e, ast.Subscript) and isinstance(
+                    e.slice, ast.Constant) and isinstance(
+                        e.slice.value, int):
+                el = self.elem_atoms(e.value, e.slice.value, fn, bind, depth,
+                                     _seen)
+                if el:
+                    return el
+            return self._chain_atoms(e, fn, bind, depth, _seen)
         if isinstance(e, ast.Call):
             return self._call_atoms(e, fn, bind, depth, _seen)
         if isinstance(e, (ast.List, ast.Tuple, ast.Set)):
@@ -232,6 +247,101 @@ class Flow:
         if isinstance(e, ast.NamedExpr):
             return A(e.value)
         return {unparse(e)}
+
+    def _comp_binding(self, name_node, fn):
+        """(iter expr, tuple index or None) when the name is the target of an
+        enclosing comprehension (comprehension variables have their own
+        scope; a loop variable of the same name elsewhere is unrelated)."""
+        n = name_node
+        stop = fn.node if fn is not None else None
+        while True:
+            p = getattr(n, '_parent', None)
+            if p is None or p is stop:
+                return None
+            if isinstance(p, (ast.ListComp, ast.GeneratorExp, ast.SetComp,
+                              ast.DictComp)):
+                for g in p.generators:
+                    if n is g.iter and g is p.generators[0]:
+                        break
+                    r = self._target_index(g.target, name_node.id)
+                    if r is not None:
+                        return g.iter, (None if r == () else r[0])
+            if isinstance(p, (ast.FunctionDef, ast.AsyncFunctionDef,
+                              ast.Lambda)):
+                return None
+            n = p
+
+    def _target_index(self, t, name):
+        if isinstance(t, ast.Name):
+            return () if t.id == name else None
+        if isinstance(t, (ast.Tuple, ast.List)):
+            for i, x in enumerate(t.elts):
+                r = self._target_index(x, name)
+                if r is not None:
+                    return (i,) + r
+        if isinstance(t, ast.Starred):
+            return self._target_index(t.value, name)
+        return None
+
+    def _chain_atoms(self, e, fn, bind, depth, _seen):
+        """Atoms of an attribute/subscript chain: the chain's suffix appended
+        to every atom of its root (so `d = outs.host; d.path` and
+        `outs.host.path` give the same atom), plus the root's own atoms (a
+        flow through part of an object is a flow from the object)."""
+        suffix = []
+        root = e
+        while isinstance(root, (ast.Attribute, ast.Subscript)):
+            if isinstance(root, ast.Attribute):
+                suffix.append('.' + root.attr)
+            else:
+                suffix.append('[' + self._key_text(root.slice, fn) + ']')
+            root = root.value
+        suf = ''.join(reversed(suffix))
+        out = set()
+        # a value selected by a computed key depends on the key
+        r_ = e
+        while isinstance(r_, (ast.Attribute, ast.Subscript)):
+            if isinstance(r_, ast.Subscript) and not isinstance(
+                    r_.slice, ast.Constant):
+                out |= {a for a in self.atoms(r_.slice, fn, bind, depth,
+                                              _seen)
+                        if not a.startswith('const:')}
+            r_ = r_.value
+        if isinstance(root, ast.Name) and fn is not None and not \
+                self._is_local(root.id, fn):
+            # global / imported name: canonical text as is
+            out.add(root.id + suf)
+            r = self.repo.resolve_expr(fn.module, e, self.repo.local_scope(
+                fn)) if isinstance(e, ast.Attribute) else None
+            if r is not None and r[0] == 'value' and r[3] is not None and \
+                    depth < self.max_depth:
+                out |= self.atoms(r[3], None, None, depth + 1, _seen)
+            return out
+        roots = self.atoms(root, fn, bind, depth, _seen)
+        for r in roots:
+            if r.startswith(('const:', 'key:')):
+                continue
+            if r.endswith('()') and len(r) > 2:
+                # marker of a call: the precise text form is also present
+                continue
+            base = r[6:] if r.startswith('param:') else r
+            out.add(base + suf)
+        if not out:
+            out.add(unparse(e))
+        return out
+
+    def _key_text(self, k, fn):
+        if isinstance(k, ast.Constant):
+            return repr(k.value)
+        if isinstance(k, ast.Attribute):
+            return unparse(k)
+        return ''
+
+    def _is_local(self, name, fn):
+        for sc in self._scope_chain(fn):
+            if name in Q.params(sc.node) or name in self.defs(sc.node):
+                return True
+        return False
 
     def _name_atoms(self, name, fn, bind, depth, _seen):
         out = set()
@@ -380,20 +490,35 @@ class Flow:
         return out
 
     def _bind_args(self, call, callee, fn, bind, depth, _seen):
+        a_ = callee.node.args
+        pos = [x.arg for x in a_.posonlyargs + a_.args]
         plist = Q.params(callee.node)
-        off = 0
-        if plist and plist[0] in ('self', 'cls') and isinstance(
-                call.func, ast.Attribute):
-            off = 1
+        if pos and pos[0] in ('self', 'cls') and (isinstance(
+                call.func, ast.Attribute) or callee.cls is not None and
+                not isinstance(call.func, ast.Name)):
+            pos = pos[1:]
+        va = a_.vararg.arg if a_.vararg else None
         b = {}
         for i, a in enumerate(call.args):
             if isinstance(a, ast.Starred):
+                rest = self.atoms(a.value, fn, bind, depth, _seen)
+                for p in pos[i:]:
+                    if Q.param_default(callee.node, p) is None:
+                        b.setdefault(p, set()).update(rest)
+                if va:
+                    b.setdefault(va, set()).update(rest)
                 break
-            if i + off < len(plist):
-                b[plist[i + off]] = self.atoms(a, fn, bind, depth, _seen)
+            if i < len(pos):
+                b[pos[i]] = self.atoms(a, fn, bind, depth, _seen)
+            elif va:
+                b.setdefault(va, set()).update(
+                    self.atoms(a, fn, bind, depth, _seen))
         for k in call.keywords:
             if k.arg and k.arg in plist:
                 b[k.arg] = self.atoms(k.value, fn, bind, depth, _seen)
+            elif k.arg and a_.kwarg:
+                b.setdefault(a_.kwarg.arg, set()).update(
+                    self.atoms(k.value, fn, bind, depth, _seen))
         # defaults of unbound parameters
         for p in plist:
             if p not in b:
@@ -425,7 +550,10 @@ class Flow:
             rets = self._returns(callee)
             for r in rets:
                 out |= self.atoms(r, callee, b, depth + 1, _seen)
-            out.add(self.canon(e.func, fn) + '()')
+            out.add(callee.qualname + '()')
+            at = self._arg_text(e)
+            if at:
+                out.add(callee.qualname + '(' + at + ')')
             return out
         if isinstance(e.func, ast.Attribute):
             if e.func.attr in TRANSPARENT_METHODS:
@@ -433,14 +561,87 @@ class Flow:
                 for a in args:
                     out |= A(a)
                 return out
-        # opaque call: its own canonical text, plus what flows into it
-        out.add(self.canon(e.func, fn) + '()')
-        out.add(self.canon(e, fn))
+        # opaque call: its canonical text(s), plus what flows into it
+        for t in self._call_texts(e, fn, bind, depth, _seen):
+            out.add(t)
         for a in args:
             out |= A(a)
-        if isinstance(e.func, ast.Attribute):
-            out |= A(e.func.value)
         return out
+
+    def _arg_text(self, call):
+        parts = []
+        for a in call.args:
+            parts.append(repr(a.value) if isinstance(a, ast.Constant)
+                         else '~')
+        for k in call.keywords:
+            parts.append('{}={}'.format(k.arg, repr(k.value.value)
+                                        if isinstance(k.value, ast.Constant)
+                                        else '~'))
+        return ', '.join(parts)
+
+    def _call_texts(self, e, fn, bind, depth, _seen):
+        """Canonical texts of a call: receiver atoms + method name, constant
+        arguments spelled out, other arguments as `~`; and the `f()` marker."""
+        heads = self._call_heads(e, fn, bind, depth, _seen)
+        at = self._arg_text(e)
+        out = set()
+        for h in heads:
+            if h.endswith('()') and len(h) > 2:
+                h = h[:-2] + '(~)'
+            out.add(h + '()')
+            if at:
+                out.add(h + '(' + at + ')')
+        return out
+
+    def _call_heads(self, e, fn, bind, depth, _seen):
+        """Canonical texts of the callee expression of a call."""
+        f = e.func
+        heads = set()
+        if isinstance(f, ast.Attribute):
+            for r in self.atoms(f.value, fn, bind, depth, _seen):
+                if r.startswith(('const:', 'key:')):
+                    continue
+                if r.endswith('()') and len(r) > 2:
+                    continue
+                base = r[6:] if r.startswith('param:') else r
+                heads.add(base + '.' + f.attr)
+            if not heads:
+                heads.add(unparse(f))
+        elif isinstance(f, ast.Call):
+            heads |= self._call_texts(f, fn, bind, depth, _seen)
+        elif isinstance(f, ast.Name):
+            if fn is not None and self._is_local(f.id, fn):
+                done = False
+                for sc in self._scope_chain(fn):
+                    ds = self.defs(sc.node).get(f.id)
+                    if ds:
+                        if all(k == 'value' and isinstance(x, ast.Call)
+                               for k, x, i in ds):
+                            for k, x, i in ds:
+                                key = (id(x), sc.fq, 'ct')
+                                if key in _seen:
+                                    continue
+                                _seen.add(key)
+                                try:
+                                    heads |= {
+                                        t for t in self._call_texts(
+                                            x, sc, bind if sc is fn else
+                                            None, depth, _seen)
+                                        if not t.endswith('()')}
+                                finally:
+                                    _seen.discard(key)
+                            done = True
+                        break
+                if not done:
+                    for r in self._name_atoms(f.id, fn, bind, depth, _seen):
+                        if r.startswith(('const:', 'key:')):
+                            continue
+                        heads.add(r[6:] if r.startswith('param:') else r)
+            else:
+                heads.add(f.id)
+        else:
+            heads.add(unparse(f))
+        return heads
 
     # -- control facts -------------------------------------------------------
     def find_calls(self, fn, pred, depth=3, _seen=None, chain=()):
